@@ -524,6 +524,8 @@ def run(ctx):
     ctx.notes['known_classes_seen'] = known_seen
     for l in lines[:4]:
         ctx.sample(l[:300])
+    if nviol > 6:
+        return          # the search already produced concrete failing inputs; the distribution below is incomplete
     # generator self-check: every type code, every dimensionality, every label, and some NaN-point / ring cases were drawn
     for need in ('PT', 'LS', 'LR', 'CS', 'PG', 'CC', 'CP') + COLL:
         if dist['types'].get(need, 0) == 0:
